@@ -286,6 +286,159 @@ static void buffer_rounds(const RoundsCase &c, pbt::Ctx &ctx)
   ctx.label("rounds-producers=" + std::to_string(np));
 }
 
+// ---------------------------------------------------------------- buffer: a large backlog
+// Producers push flat-out while the consumer does not consume for a long time (a renderer that commits once per frame):
+// the pending storage passes through every reallocation up to several MiB.  While nobody consumes, size() can only grow
+// and empty() stays false once it was false (the consumer is the only thread that takes elements out); the consumer then
+// drains in a few batches at generated thresholds.  Same completeness / per-producer order oracle as above.
+struct BacklogCase
+{
+  int producers = 2, perProducer = 100000, firstConsumeAt = 50, polls = 0;
+  auto tie() { return std::tie(producers, perProducer, firstConsumeAt, polls); }
+};
+template <class T>
+static void buffer_backlog(const BacklogCase &c, pbt::Ctx &ctx)
+{
+  const size_t np = 1 + (size_t)(((c.producers % 4) + 4) % 4);
+  const long long per = 1000 + ((c.perProducer % 400000) + 400000) % 400000;
+  const size_t total = np * (size_t)per;
+  TransactionalBuffer<T> buf;
+  std::vector<std::vector<T>> batches;
+  std::vector<std::thread> th;
+  StartGate gate((int)np + 1);
+  for (size_t p = 0; p < np; ++p)
+    th.emplace_back([&, p] {
+      gate.arrive();
+      for (long long i = 0; i < per; ++i) {
+        if (i & 1)
+          buf.push_back(Tag<T>::make((long long)p * 10000000 + i, 0));
+        else {
+          T v = Tag<T>::make((long long)p * 10000000 + i, 0);
+          buf.push_back(v);
+        }
+      }
+    });
+  std::string err;
+  size_t maxPending = 0, consumed = 0;
+  std::thread cons([&] {
+    gate.arrive();
+    // thresholds at which the consumer drains: a fraction of the total, then every remaining quarter
+    size_t nextAt = std::max<size_t>(1, total * (size_t)(10 + ((c.firstConsumeAt % 90) + 90) % 90) / 100);
+    size_t prev = 0;
+    bool sawNonEmpty = false;
+    while (consumed < total && err.empty()) {
+      const size_t s = buf.size();
+      const bool e = buf.empty();
+      if (s < prev)
+        err = "size() went from " + std::to_string(prev) + " to " + std::to_string(s) + " although nothing was consumed in between (torn / transient state)";
+      else if (sawNonEmpty && e)
+        err = "empty() returned true with " + std::to_string(prev) + " elements pending and no consume() in between";
+      prev = s;
+      sawNonEmpty = sawNonEmpty || s > 0;
+      maxPending = std::max(maxPending, s);
+      if (consumed + s > total) {
+        err = "size() observed " + std::to_string(s) + " with only " + std::to_string(total - consumed) + " elements outstanding";
+        break;
+      }
+      if (consumed + s >= nextAt || consumed + s == total) {
+        auto b = buf.consume();
+        if (b.size() < s)
+          err = "consume() returned " + std::to_string(b.size()) + " elements right after size() reported " + std::to_string(s);
+        consumed += b.size();
+        if (!b.empty())
+          batches.push_back(std::move(b));
+        prev = 0;
+        sawNonEmpty = false;
+        nextAt = std::min(total, consumed + std::max<size_t>(1, (total - consumed) / 2));
+      }
+      for (int k = 0; k < c.polls % 4; ++k)
+        sched_yield();
+    }
+  });
+  for (auto &x : th)
+    x.join();
+  cons.join();
+  auto last = buf.consume();
+  if (!last.empty())
+    batches.push_back(std::move(last));
+  PBT_ASSERT_MSG(err.empty(), err);
+  std::vector<long long> next(np, 0);
+  size_t seen = 0;
+  for (auto &b : batches)
+    for (auto &e : b) {
+      const long long tag = Tag<T>::back(e);
+      PBT_ASSERT_MSG(tag >= 0, "consumed an element that was never pushed (corrupt payload)");
+      const size_t p = (size_t)(tag / 10000000);
+      const long long seq = tag % 10000000;
+      PBT_ASSERT_MSG(p < np, "consumed an element with an unknown producer");
+      PBT_ASSERT_MSG(seq == next[p], "producer " << p << ": consumed item " << seq << " but expected item " << next[p] << " (lost, duplicated or reordered; batch of " << b.size() << ")");
+      next[p]++;
+      ++seen;
+    }
+  PBT_ASSERT_MSG(seen == total, "consumed " << seen << " elements, pushed " << total);
+  const size_t bytes = maxPending * sizeof(T);
+  ctx.label(bytes >= (8u << 20) ? "pending>=8MiB" : bytes >= (1u << 20) ? "pending>=1MiB" : "pending<1MiB");
+  ctx.nt(bytes >= (1u << 20));
+}
+
+// ---------------------------------------------------------------- value: long quiet periods of the consumer
+// One thread: k assignments, then update() must install the newest value whatever k is (a consumer that polls once per
+// frame while a sensor thread assigns at kHz..MHz rates).  k runs over a boundary table of powers of two and neighbours.
+struct BurstCase
+{
+  std::vector<int> bursts;  // indices into the table
+  auto tie() { return std::tie(bursts); }
+};
+static const std::vector<long long> &burstTable()
+{
+  static const std::vector<long long> t = [] {
+    std::vector<long long> v = {1, 2, 3, 255, 256, 257, 65535, 65536, 65537, 131072, 196608, 1 << 20};
+    if (const char *e = getenv("PBT_TIER"))
+      if (std::string(e) == "thorough") {
+        v.push_back(1ll << 24);
+        v.push_back((1ll << 24) + 1);
+#ifndef C12_TSAN
+        v.push_back(1ll << 32);
+#endif
+      }
+    return v;
+  }();
+  return t;
+}
+template <class T>
+static void value_bursts(const BurstCase &c, pbt::Ctx &ctx)
+{
+  TransactionalValue<T> tv(Tag<T>::make(0, 0));
+  long long n = 0;
+  bool big = false;
+  auto &tab = burstTable();
+  long long budget = 1ll << 33;
+  for (int bi : c.bursts) {
+    const long long k = tab[(size_t)(((bi % (int)tab.size()) + (int)tab.size()) % (int)tab.size())];
+    if (k > budget)
+      continue;
+    budget -= k;
+    // the payload is only built for the last few assignments of a long burst (the others assign a shared value)
+    const T filler = Tag<T>::make(n, 0);
+    for (long long i = 1; i <= k; ++i) {
+      if (i + 2 >= k)
+        tv = Tag<T>::make(n + i, 0);
+      else
+        tv = filler;
+    }
+    n += k;
+    const bool u = tv.update();
+    PBT_ASSERT_MSG(u, "update() returned false although " << k << " values were assigned since the previous update()");
+    PBT_ASSERT_MSG(Tag<T>::back(tv.get()) == n, "after " << k << " assignments and update(), get() yields value #" << Tag<T>::back(tv.get()) << ", the last assigned is #" << n);
+    PBT_ASSERT_MSG(!tv.update(), "a second update() without an assignment in between returned true");
+    PBT_ASSERT(Tag<T>::back(tv.ref()) == n);
+    big = big || k >= 65536;
+  }
+  if (big)
+    ctx.label("burst>=65536");
+  ctx.nt(big);
+}
+
 // ---------------------------------------------------------------- value
 struct ValCase
 {
@@ -373,6 +526,15 @@ static void register_properties()
       gen::set(&RoundsCase::perRound, pbt::range<int>(1, 3)), gen::set(&RoundsCase::yields, pbt::range<int>(0, 1)));
   pbt::property<RoundsCase>("buffer_rounds_int", 25, rc_, buffer_rounds<long long>);
   pbt::property<RoundsCase>("buffer_rounds_string", 25, rc_, buffer_rounds<std::string>);
+  auto blc = gen::build<BacklogCase>(gen::set(&BacklogCase::producers, pbt::range<int>(0, 3)), gen::set(&BacklogCase::perProducer, pbt::range<int>(60000, 399999)),
+      gen::set(&BacklogCase::firstConsumeAt, pbt::range<int>(0, 89)), gen::set(&BacklogCase::polls, pbt::range<int>(0, 3)));
+  pbt::property<BacklogCase>("buffer_backlog_int", 6, blc, buffer_backlog<long long>);
+  pbt::registry().back()->noShrink = true;
+  pbt::property<BacklogCase>("buffer_backlog_string", 3, blc, buffer_backlog<std::string>);
+  pbt::registry().back()->noShrink = true;
+  auto brc = gen::build<BurstCase>(gen::set(&BurstCase::bursts, pbt::vec(pbt::range<int>(0, 63), 6)));
+  pbt::property<BurstCase>("value_bursts_int", 20, brc, value_bursts<long long>);
+  pbt::property<BurstCase>("value_bursts_string", 10, brc, value_bursts<std::string>);
   auto valc = gen::build<ValCase>(gen::set(&ValCase::assignments, pbt::range<int>(0, 300)), gen::set(&ValCase::producerPause, pbt::range<int>(0, 3)),
       gen::set(&ValCase::consumer, pbt::vec(pbt::range<int>(0, 2), 300)), gen::set(&ValCase::yields, pbt::range<int>(0, 2)));
   pbt::property<ValCase>("value_int", 150, valc, value_case<long long>);
